@@ -6,7 +6,7 @@ N=${1:-300}
 cd "$ROOT" && ./check.sh --build-only || exit 2
 B="$ROOT"/.bin/setup; mkdir -p "$ROOT"/.tmp; T=$(mktemp -d "$ROOT"/.tmp/det-XXXX); trap 'rm -rf $T' EXIT
 fail=0
-for prop in C14 C19 C13 C11; do
+for prop in ${PROPS:-C14 C19 C13 C11}; do
   n=$N; [ $prop = C19 ] && n=$((N/10))
   i=0
   for cfg in "plain chan probe 1" "plain chan probe 1" "plain pipe track 1" "plain pipe track 4" "plain pipe track 16" "plain pipe probe 4" "race pipe track 1" "race pipe track 4" "race pipe track 4" "race pipe track 16"; do
